@@ -224,6 +224,8 @@ class _UObj:
 
 @prettyprinter.register_pretty(_UObj)
 def _pretty_uobj(v, ctx):
+    # passes data down to nested printers with the documented ctx.assoc(): the derived context must keep the cycle bookkeeping
+    ctx = ctx.assoc('verif_marker', v.args[0] if v.args else None)
     return prettyprinter.pretty_call_alt(ctx, _UObj, args=tuple(v.args), kwargs=list(v.kwargs.items()))
 
 
